@@ -27,11 +27,14 @@ def run(prop, mod, ctx, src):
     base = {f.ident() for f in ctx.findings}
     for t in tests:
         text = src.text(t["file"])
-        n = text.count(t["old"])
-        if n != 1:
-            ctx.selftests.append(dict(name=t["name"], result="skipped", why=f"anchor occurs {n} times"))
+        edits = t.get("edits") or [(t["old"], t["new"])]
+        bad = [o for o, _ in edits if text.count(o) != 1]
+        if bad:
+            ctx.selftests.append(dict(name=t["name"], result="skipped", why=f"anchor not present exactly once: {bad[0][:40]!r}"))
             continue
-        var = src.with_override(t["file"], text.replace(t["old"], t["new"]))
+        for o, nw in edits:
+            text = text.replace(o, nw)
+        var = src.with_override(t["file"], text)
         got, err = _findings(mod, var, prop)
         if t.get("kind", "break") == "break":
             if got is None:
